@@ -55,7 +55,7 @@ def grid(tier):
     X, Y, P = ("var", "x"), ("var", "y"), ("param", "p")
     v, w = ("vec", "v", n), ("vec", "w", n)
     A, B = ("mat", "A", r, c), ("mat", "B", r, c)
-    scal_l = [X, P, ("bin", "+", ("bin", "*", X, Y), ("num", 1.0))]
+    scal_l = [X, P, ("bin", "+", ("bin", "*", X, Y), ("num", 1.0)), ("bin", "+", ("bin", "*", P, X), Y)]
     scal_r = [("py", "int", 3), ("py", "float", S("r")), ("np", "float64", 2.5), ("np", "int64", 3), ("np", "arr0", 2.5),
               Y, P, ("bin", "*", Y, ("num", 2.0)), ("py", "float", 0.0)]
     vec_l = [v, ("vbin", "+", v, w)]
@@ -240,12 +240,14 @@ def check_scipy(case):
     import warnings
     res = []
     names = names_of(case)
-    allv = names["vars"] + names["syms"] + names["params"]
-    val = K.sym_val(allv)
-    tag = f"scipy {case[0]} {_kind(case[1])} {_kind(case[2])}"
-    sig0 = f"{case[0]}|{_kind(case[1])}|{_kind(case[2])}"
+    allv = names["vars"] + names["syms"] + names["params"] + [n + "'" for n in names["params"]]
+    val0 = K.sym_val(allv)
+    val1 = {**val0, **{n: val0[n + "'"] for n in names["params"]}}
+    val = val0
+    tag0 = f"scipy {case[0]} {_kind(case[1])} {_kind(case[2])}"
+    sig00 = f"{case[0]}|{_kind(case[1])}|{_kind(case[2])}"
 
-    def run():
+    def run(second=False):
         try:
             c = build_constraint(case, val)
         except Exception as e:  # noqa: BLE001
@@ -269,12 +271,29 @@ def check_scipy(case):
         with stubs.patched(ms, None), warnings.catch_warnings():
             warnings.simplefilter("ignore")
             p.solve(method="SLSQP")
-        return p, ms.calls
+        # the same problem solved again after its parameters were updated
+        from optyx.core.parameters import Parameter
+        params = {o.name: o for cc in cons for o in K.reachable(cc.expr) if isinstance(o, Parameter)}
+        ms2 = stubs.MinimizeStub("fixed")
+        if second and params and all(n + "'" in val0 for n in params):
+            for n, o in params.items():
+                o.set(val0[n + "'"])
+            with stubs.patched(ms2, None), warnings.catch_warnings():
+                warnings.simplefilter("ignore")
+                p.solve(method="SLSQP")
+        return p, ms.calls, ms2.calls
 
+    runs = []
     for dec, labels, pc, out in K.explore(run, max_paths=200):
         if out is None:
             continue
-        p, calls = out
+        runs.append((pc, out[0], out[1], val0, tag0, sig00, False))
+    if names["params"]:
+        # (the closures read the parameters when called, so the updated run is explored separately)
+        for dec, labels, pc, out in K.explore(lambda: run(True), max_paths=200):
+            if out is not None and out[2]:
+                runs.append((pc, out[0], out[2], val1, tag0 + " [second solve, parameters updated]", sig00 + "|upd", True))
+    for pc, p, calls, val, tag, sig0, upd in runs:
         if not calls:
             continue
         call = calls[0]
@@ -287,7 +306,9 @@ def check_scipy(case):
             x[i] = val[n]
         w, dom = want(case, val)
         dicts = list(call["constraints"])
-        payload = dict(kind="scipy", case=K.enc(case))
+        payload = dict(kind="scipy", case=K.enc(case), upd=upd)
+        if upd:
+            dom = dom + want(case, val0)[1]
         if len(dicts) != len(w):
             res.append(violation(f"C10|scipy-count|{sig0}", f"{tag}: {len(dicts)} dicts for {len(w)} elements", payload))
             continue
@@ -388,8 +409,9 @@ def _replay_scipy(case, payload):
     import optyx.solvers.scipy_solver as ss
     from optyx import Problem
     names = names_of(case)
-    allv = names["vars"] + names["syms"] + names["params"]
+    allv = names["vars"] + names["syms"] + names["params"] + [n + "'" for n in names["params"]]
     rng = random.Random(2)
+    upd = bool(payload.get("upd"))
     for pt in K.candidate_points(allv, payload.get("values", {}), 3, n=6):
         c = build_constraint(case, pt)
         cons = c if isinstance(c, list) else [c]
@@ -410,6 +432,15 @@ def _replay_scipy(case, payload):
             with warnings.catch_warnings():
                 warnings.simplefilter("ignore")
                 p.solve(method="SLSQP")
+                if upd:
+                    from optyx.core.parameters import Parameter
+                    for cc in cons:
+                        for o in K.reachable(cc.expr):
+                            if isinstance(o, Parameter):
+                                o.set(pt[o.name + "'"])
+                    del cap[:]
+                    p.solve(method="SLSQP")
+                    pt = {**pt, **{n: pt[n + "'"] for n in names["params"]}}
         finally:
             ss.minimize = old
         cols = [v.name for v in p.variables]
